@@ -116,7 +116,7 @@ func checkC14(ci any, info *CaseInfo) string {
 		if rv, err := gomodel.Materialize(typ, c.Pre); err == nil {
 			info.Class("prefilled_target")
 			target.Elem().Set(rv)
-			growCaps(target.Elem(), 0)
+			growCaps(target.Elem(), func() reflect.Value { w, _ := gomodel.Materialize(typ, c.Pre); return w })
 		}
 	}
 	var u *gotype.Unfolder
@@ -261,20 +261,48 @@ func checkC14(ci any, info *CaseInfo) string {
 }
 
 // growCaps gives every non-nil slice in v spare capacity holding non-zero
-// elements beyond its length (what a recycled target looks like).
-func growCaps(v reflect.Value, depth int) {
+// elements beyond its length (what a recycled target looks like). The spare
+// elements are taken from fresh copies of the value (fresh()), so that they
+// share no map, slice or pointer with a live element or with each other.
+func growCaps(v reflect.Value, fresh func() reflect.Value) {
+	growCapsAt(v, fresh, nil, 0)
+}
+
+func growCapsAt(v reflect.Value, fresh func() reflect.Value, path []int, depth int) {
 	if depth > 8 {
 		return
+	}
+	at := func(idx int) (reflect.Value, bool) {
+		w := fresh()
+		for _, step := range append(append([]int{}, path...), idx) {
+			switch w.Kind() {
+			case reflect.Ptr:
+				if w.IsNil() {
+					return w, false
+				}
+				w = w.Elem()
+			case reflect.Struct:
+				w = w.Field(step)
+			case reflect.Slice:
+				if step >= w.Len() {
+					return w, false
+				}
+				w = w.Index(step)
+			default:
+				return w, false
+			}
+		}
+		return w, true
 	}
 	switch v.Kind() {
 	case reflect.Ptr:
 		if !v.IsNil() {
-			growCaps(v.Elem(), depth+1)
+			growCapsAt(v.Elem(), fresh, append(path, -1), depth+1)
 		}
 	case reflect.Struct:
 		for i := 0; i < v.NumField(); i++ {
 			if v.Field(i).CanSet() {
-				growCaps(v.Field(i), depth+1)
+				growCapsAt(v.Field(i), fresh, append(path, i), depth+1)
 			}
 		}
 	case reflect.Slice:
@@ -285,12 +313,16 @@ func growCaps(v reflect.Value, depth int) {
 		grown := reflect.MakeSlice(v.Type(), n+2, n+3)
 		reflect.Copy(grown, v)
 		if n > 0 {
-			grown.Index(n).Set(v.Index(0))
-			grown.Index(n + 1).Set(v.Index(n - 1))
+			if w, ok := at(0); ok {
+				grown.Index(n).Set(w)
+			}
+			if w, ok := at(n - 1); ok {
+				grown.Index(n + 1).Set(w)
+			}
 		}
 		v.Set(grown.Slice(0, n))
 		for i := 0; i < n; i++ {
-			growCaps(v.Index(i), depth+1)
+			growCapsAt(v.Index(i), fresh, append(path, i), depth+1)
 		}
 	}
 }
